@@ -130,11 +130,9 @@ def furthest_rule(ctx, p, K):
     gl, cl, bl, sl = local(cg), local(cc), local(cb), local(cs_)
     ctx.ob(rule, h.key + ":centre", {k: norm_text(v) for k, v in wire.kw(cc).items()} == {"grid_2d_slim": gl}, where=h, node=cc, construct=norm_text(cc), message="the reference centre must be the bounding-box centre of that pixel-unit grid")
     kf = {k: norm_text(v) for k, v in wire.kw(cf).items()}
-    # candidates: the sub-pixels of this border pixel
-    cand_src = None
-    for n in h.body_nodes():
-        if isinstance(n, ast.Assign) and isinstance(n.targets[0], ast.Name) and n.targets[0].id == kf.get("slim_indexes"):
-            cand_src = norm_text(n.value)
+    # candidates: the sub-pixels of this border pixel (directly, or through a local bound once)
+    cand = wire.resolve_local(h, wire.kw(cf).get("slim_indexes")) if wire.kw(cf).get("slim_indexes") is not None else None
+    cand_src = norm_text(cand) if cand is not None else None
     loop = [n for n in h.node.body if isinstance(n, ast.For)]
     okl = len(loop) == 1 and norm_text(loop[0].iter) == f"enumerate({bl})" and isinstance(loop[0].target, ast.Tuple)
     bi, bp = (norm_text(loop[0].target.elts[0]), norm_text(loop[0].target.elts[1])) if okl else (None, None)
